@@ -12,3 +12,12 @@ Lemma combiner_slot_before_reserve_src : Combiner_slot_before_reserve = true.
 Proof. reflexivity. Qed.
 Lemma splitter_slot_before_get_src : Splitter_slot_before_get = true.
 Proof. reflexivity. Qed.
+
+(* Combiner.behaviour's reservation loop: `for edge_idx in range(1, len(self.in_edges))` reads
+   `self.target_quantity_of_each_item[edge_idx]` -- the model's [combiner_reserve] walks the in-edges from
+   index 1 (tl (nins nd), counter starting at 1) and reads [nth_error recipe k] for in-edge k. *)
+From Coq Require Import ZArith.
+Lemma combiner_first_ingredient_edge_src : Combiner_first_ingredient_edge = 1%Z.
+Proof. reflexivity. Qed.
+Lemma combiner_recipe_index_src : forall k : Z, Combiner_recipe_index k = k.
+Proof. intros k. reflexivity. Qed.
